@@ -94,6 +94,34 @@ def gen_models(lo: int, hi: int, with_props: bool, with_comments: bool, rep: cor
     return out
 
 
+PRODUCT_CFG = '''CONSTANTS
+  SeedLo = %d
+  SeedHi = %d
+  WithProps = FALSE
+  WithComments = FALSE
+  Family = "%s"
+INIT Init
+NEXT Next
+INVARIANT ProductFaithful
+INVARIANT EmitProduct
+CHECK_DEADLOCK FALSE
+'''
+FAMILY_SIZES = {'column': 24192, 'index': 1008, 'table': 576, 'ref': 10368, 'enum': 108, 'misc': 729}
+
+
+def gen_products(family: str, count: int, rep: core.Report):
+    """the first `count` elements (all if count >= size) of a per-element feature product (GenProduct.tla), spread over all
+    dimensions by a stride; -> [(family:index, doc)]"""
+    hi = min(count, FAMILY_SIZES[family])
+    res = tlc.require_ok(tlc.run_sharded('MC_GenProduct', lambda a, b: PRODUCT_CFG % (a, b, family), 1, hi, timeout=3000), 'MC_GenProduct')
+    if res.violated:
+        raise core.Machinery('design-level property %s violated in MC_GenProduct(%s)\n%s' % (res.violated, family, res.out[-3000:]))
+    rep.add_tlc('MC_GenProduct %s 1..%d of %d' % (family, hi, FAMILY_SIZES[family]), res)
+    out = [('%s:%d' % (family, p[1]), json.loads(p[2])) for p in res.prints if p and p[0] == 'DOC']
+    out.sort(key=lambda x: x[0])
+    return out, hi >= FAMILY_SIZES[family]
+
+
 def form_plan(nrandom: int, sweep: bool, base_seed: int) -> List[Tuple[Optional[int], Dict[str, Any]]]:
     """the forms each document is printed in: canonical, every single dimension pinned to every
     non-default value (sweep), and seeded random combinations of all dimensions"""
